@@ -54,7 +54,7 @@ theorem parseStr_gen (v : List Char) : parseStrBy Gen.C15Walk.strFnFacts v = par
 theorem feedFacts_ok : Gen.C15Walk.feedFacts.all (·.2) = true := by decide
 
 /-- **one iteration of the loop of `Provider.Run` as regenerated** -/
-theorem feedLoop_gen {α} (ring : List α) (p l fuel k : Nat) (hne : ring.length ≠ 0) :
+theorem feedLoop_gen {α} (ring : List α) (p l fuel k : Nat) :
     feedLoop ring p l (fuel + 1) k =
       if Gen.C15Walk.feedPassStop p (Gen.C15Walk.feedPassNum k ring.length) then []
       else if Gen.C15Walk.feedLimitStop l k then []
